@@ -7,11 +7,11 @@ import sys,os,glob,re,subprocess
 D=sys.argv[1]
 os.makedirs(D,exist_ok=True)
 AREAS={
- 'par2dec':"par2/decoder.go: fillShardInfos (the scan loop), the loop at the end of LoadParityData that fills the exponent-indexed parity table, newCoderAndShards, (*Decoder).Repair; par2/file.go: readFile; par2/verify.go and par2/repair.go (option defaulting, decoder set-up)",
- 'par2enc':"par2/encoder.go: (*Encoder).Write - especially the loop that builds and writes the recovery volume files -, ComputeParityData, LoadFileData; par2/file.go: writeFile (the packet emission loops); par2/create.go: create (option defaulting, path handling); par2/data_file.go",
- 'par1':"par1/encoder.go: (*Encoder).Write (index volume and the loop over parity volumes), ComputeParityData; par1/decoder.go: LoadParityData (the probing loop), buildShards, newReedSolomon, Repair, LoadFileData",
- 'field':"rsec16/coder.go: DefaultNumGoroutines, NewCoderPAR2Vandermonde, newVandermondeParityMatrix, NewCoderCauchy, makeReconstructionMatrix, ReconstructData, GenerateParity; rsec16/vandermonde.go, rsec16/cauchy.go; rsec16/matrix.go; gf2p16/matrix.go: NewMatrixFromFunction and the row operations; gf2p16/t.go",
- 'cli':"cmd/par/main.go (flag handling, exit codes, the repair-checker logic) and the defaultFileIO file helpers in par1 and par2",
+ 'par2dec':"par2/decoder.go: fillShardInfos and fillFileIntegrityInfos (the slice search and what it is fed), the per-volume acceptance in LoadParityData (reading a volume file, the main-packet / recovery-set / slice-size comparisons), LoadFileData; par2/crc32.go (newCRC32Window, update)",
+ 'par2enc':"par2/create.go: create (option defaulting, making the input paths absolute, what is handed to newEncoder); par2/encoder.go: newEncoder, LoadFileData; par2/data_file.go; par2/string.go; par2/file_description_packet.go (checkFilename and the packet codec)",
+ 'par1':"par1/create.go: create (option defaulting, the same-directory test, what is handed to newEncoder); par1/decoder.go: LoadFileData (the per-file closure that reads and classifies a data file), getFilePath, volumePath, newDecoder; par1/volume.go: readVolume, writeVolume; par1/header.go; par1/file_entry.go",
+ 'field':"gf2p16/slice.go (the portable Generic kernels), gf2p16/slice_amd64.go, gf2p16/slice_unsafe.go and the other platform dispatch files (Go only), gf2p16/t.go and t_amd64.go (table construction in init/platformInit), gf2/poly64.go, rsec16/matrix.go (applyMatrixSlice, applyMatrixParallelData, calculateParallelParams)",
+ 'cli':"the error paths of the library entry points used by the CLI: par1/verify.go, par1/repair.go, par2/verify.go, par2/repair.go (result structs, error classification helpers), the delegates in cmd/par/main.go, and par2/decoder.go defaultFileIO / par1/file_io.go",
 }
 T='''# Task: behaviour-preserving refactors of gopar
 
